@@ -6,6 +6,8 @@
 package imapmemserver
 
 import (
+	"strings"
+
 	"github.com/emersion/go-imap/v2"
 	"github.com/emersion/go-imap/v2/imapserver"
 )
@@ -59,3 +61,66 @@ var _ *imapserver.FetchWriter
 //@   ensures mbox.uidNext == old(mbox.uidNext)+1 && mbox.uidValidity == old(mbox.uidValidity)
 //@   ensures len(mbox.l) == old(len(mbox.l))+1 && mbox.l[len(mbox.l)-1] != nil && mbox.l[len(mbox.l)-1].uid == old(mbox.uidNext)
 //@   ensures forall k int :: 0 <= k && k < old(len(mbox.l)) ==> mbox.l[k] == old(mbox.l[k])
+
+// ---------------------------------------------------------------------------
+// Resolving "*" in a range against the current maximum (RFC 3501 sequence-set:
+// "*" is the largest number in use, and the two ends of a range may come in
+// either order, so "10:*" with a maximum of 3 denotes 3:10).
+
+//@ pure
+func resolveStar(n, max uint32) uint32 {
+	if n == 0 {
+		return max
+	}
+	return n
+}
+
+//@ func staticNumRange(start, stop *uint32, max uint32)
+//@   props C09 C08
+//@   requires start != nil && stop != nil && start != stop
+//@   ensures old(*start) != 0 && old(*stop) != 0 ==> *start == old(*start) && *stop == old(*stop)
+//@   ensures (old(*start) == 0 || old(*stop) == 0) && resolveStar(old(*start), max) <= resolveStar(old(*stop), max) ==> *start == resolveStar(old(*start), max) && *stop == resolveStar(old(*stop), max)
+//@   ensures (old(*start) == 0 || old(*stop) == 0) && resolveStar(old(*start), max) > resolveStar(old(*stop), max) ==> *start == resolveStar(old(*stop), max) && *stop == resolveStar(old(*start), max)
+
+// ---------------------------------------------------------------------------
+// Flags are compared case-insensitively: every access to a message's flag set
+// goes through canonicalFlag, which folds the whole name.
+
+//@ func canonicalFlag(flag imap.Flag) (result imap.Flag)
+//@   props C09
+//@   ensures string(result) == strings.ToLower(string(flag))
+
+//@ pure
+func hasFlag(msg *message, f imap.Flag) bool {
+	_, ok := msg.flags[f]
+	return ok
+}
+
+// inFlags: f is the folded form of one of flags[0..n).
+//
+//@ pure
+func inFlags(flags []imap.Flag, n int, f imap.Flag) bool {
+	return __exists(func(k int) bool { return 0 <= k && k < n && k < len(flags) && canonicalFlag(flags[k]) == f })
+}
+
+// STORE replaces, adds or removes exactly the named flags (folded), and
+// touches nothing else of the message.
+//
+//@ func (msg *message) store(store *imap.StoreFlags)
+//@   props C09
+//@   requires msg != nil && store != nil && msg.flags != nil
+//@   panics only if store.Op != imap.StoreFlagsSet && store.Op != imap.StoreFlagsAdd && store.Op != imap.StoreFlagsDel
+//@   ensures store.Op == imap.StoreFlagsSet ==> forall f imap.Flag :: hasFlag(msg, f) == inFlags(store.Flags, len(store.Flags), f)
+//@   ensures store.Op == imap.StoreFlagsAdd ==> forall f imap.Flag :: hasFlag(msg, f) == (old(hasFlag(msg, f)) || inFlags(store.Flags, len(store.Flags), f))
+//@   ensures store.Op == imap.StoreFlagsDel ==> forall f imap.Flag :: hasFlag(msg, f) == (old(hasFlag(msg, f)) && !inFlags(store.Flags, len(store.Flags), f))
+//@   ensures msg.uid == old(msg.uid) && __same(msg.buf, old(msg.buf))
+//@   loop 0 vars (i int)
+//@   loop 0 invariant -1 <= i && i < len(store.Flags) && msg.flags != nil
+//@   loop 0 invariant store.Op == imap.StoreFlagsSet ==> forall f imap.Flag :: hasFlag(msg, f) == inFlags(store.Flags, i+1, f)
+//@   loop 0 invariant store.Op == imap.StoreFlagsAdd ==> forall f imap.Flag :: hasFlag(msg, f) == (old(hasFlag(msg, f)) || inFlags(store.Flags, i+1, f))
+//@   loop 0 decreases len(store.Flags) - i
+//@   loop 1 vars (i int)
+//@   loop 1 invariant -1 <= i && i < len(store.Flags) && msg.flags != nil
+//@   loop 1 invariant forall f imap.Flag :: hasFlag(msg, f) == (old(hasFlag(msg, f)) && !inFlags(store.Flags, i+1, f))
+//@   loop 1 decreases len(store.Flags) - i
+var _ = strings.ToLower
